@@ -69,7 +69,7 @@ func (t TimeV) localSec() Int {
 
 func init() {
 	parse := func(e *Exec, fn *ssa.Function, args []value) value {
-		layout := argStr(args[0])
+		layout := e.concretizeStr(args[0])
 		var locV value
 		lo := mkI64(0)
 		if len(args) > 2 {
